@@ -43,6 +43,7 @@ QUERY_FNS = [
     ("harmonic_norm", 1, 1),
     ("shift_factor", 1, 1),
     ("permutation_libcint", 1, 1),
+    ("boys_func", 1, 1),
     ("factorial2", 1, 1),
     ("is_integral_screened", 1, 1),
     ("cls_contraction", 3, 1),
